@@ -227,6 +227,13 @@ Theorem C19_zero_operand_fastpaths_refuted : forall x y n m, n <> m -> n <> 1 ->
   pinned_zero_add (x ++ [n; n]) (y ++ [m; m]) = Ok (y ++ [m; m]).
 Proof. intros. apply add_zero_operand_refuted; assumption. Qed.
 
+(* FINITE (regenerated): the `_matmul` / `_t_matmul` closures and `_size` methods that call _matmul_broadcast_shape
+   themselves on the pinned tree still do — they are the only shape check on the CG route of the generic solve, which hands
+   `self._matmul` to linear_cg without a check of its own for 2-D right-hand sides *)
+Theorem C19_matmul_closure_guards_kept :
+  forallb (fun h => existsb (String.eqb h) helper_guards) pinned_helper_guards = true.
+Proof. exact helper_guards_kept. Qed.
+
 (* ---- pinned overrides that skip the base check: the full-strength statement is FALSE of them ------------- *)
 
 Theorem C19_diag_matmul_size1_inner_refuted : forall n p, n <> 1 ->
